@@ -37,10 +37,14 @@ TRUSTED_BASE = ["Coq 8.16.1 kernel (coqc), vm_compute only", "Extraction with Ex
                 "summaries (bitmap, per-producer order, checksum) are computed by C++ in the harness and judged by free_ok/backlog_ok",
                 "ocaml/prelude.ml + ocaml/c30_driver.ml (token printing/parsing), vlib (generators, comparison)",
                 "memory model: interleaving (SC) semantics; x86-TSO store buffering is not modelled",
-                "uSWSR_Ptr_Buffer modelled as a FIFO list per slot (compared sequentially across its segment boundary only)"]
+                "uSWSR_Ptr_Buffer modelled as a FIFO list per slot (compared sequentially across its segment boundary, and under "
+                "forced producer/consumer interleavings at its WMB()/memset yield points, by a count/order digest)"]
 ASSUMPTIONS = ["sequentially consistent interleaving of the shared actions (x86-TSO not modelled); each primitive is atomic",
                "per-slot uSWSR_Ptr_Buffer behaves as a FIFO list when used by at most one pusher and one popper at a time "
-               "(that discipline is proved; the buffer is tested sequentially only)",
+               "(that discipline is proved; the buffer is tested sequentially and, with one producer and one consumer, under "
+               "forced interleavings at its publication points (WMB) and inside the memset of reset() for segments > 512 "
+               "entries; interleavings between other plain loads/stores of the lane buffer, e.g. inside the <= 512 clean-up "
+               "loop, are not forced)",
                "tickets stay below 2^64 (no unsigned long wrap); queue size is the power of two computed by init",
                "payload pointers are non-null"]
 RULE = ("random schedules (uniform, bursty, one thread stalled after its CAS, consumer-first) of 2 producers x 3 pushes + 2 "
@@ -49,7 +53,13 @@ RULE = ("random schedules (uniform, bursty, one thread stalled after its CAS, co
         "specialisations; sizes 2 and 4 make tickets wrap around the slot array; sequential uSWSR_Ptr_Buffer runs across its "
         "segment boundary; backlog cases push N elements before the first pop for N around slots x segment size (small "
         "geometries under the scheduler with full traces; the compiled default geometry, read from the harness, as a "
-        "count/order digest with 1 and 2 producer threads); thorough adds every schedule prefix of fixed length for tiny configurations (for 1 push || 2 pops the 2^17 "
+        "count/order digest with 1 and 2 producer threads); lane hand-over cases drive ONE lane buffer (uSWSR_Ptr_Buffer + "
+        "BufferPool + dynqueue), and the whole queue, with a producer and a consumer coroutine and yield points inside the "
+        "lane buffer itself (every WMB() = in front of each publishing store of segment push / segment-cache push / in-use "
+        "list push, and the memset of reset() for segments > 512 entries): directed schedules park the consumer inside "
+        "release()/reset() of a drained segment while the producer crosses its segment boundary (cache empty and non-empty, "
+        "producer at boundary -1/0/+1, producer parked in a fresh segment's clean-up), plus random command sequences; "
+        "segment sizes 2..8, 513, 640 and the compiled default; judged by a count/order digest; thorough adds every schedule prefix of fixed length for tiny configurations (for 1 push || 2 pops the 2^17 "
         "prefixes are ALL interleavings, a complete run having at most 17 actions; the other enumerations are prefixes "
         "followed by round-robin) and a free-running 16-thread stress. non-trivial = the trace contains a failed CAS, a retry, an empty pop or a ticket >= the number "
         "of slots; distinct = distinct case lines")
@@ -159,6 +169,75 @@ def slot_case(rng, size, length, cls):
     return Case("s %d %s" % (size, "".join(ops) or "-"), cls)
 
 
+def lane_directed(S, lanes=1):
+    """command strings that park one side inside the segment hand-over; S = segment size, per lane"""
+    m = lanes
+    out = []
+    # consumer parked inside release()/reset() of the first drained segment, producer crosses its boundary
+    out.append((2 * S * m + 6, "po%d,co%d,cm,po%d,pf,cf" % (2 * S * m, S * m, m + 2)))
+    # ... parked in front of each publishing store of the hand-over pop instead
+    for k in (1, 2, 3):
+        out.append((2 * S * m + 6, "po%d,co%d,%spo%d,pf,cf" % (2 * S * m, S * m, "cw," * k, m + 2)))
+    # producer parked inside the clean-up of a fresh segment / in front of its publication while the consumer drains
+    out.append((2 * S * m + 6, "po%d,pm,co%d,pw,co%d,pf,cf" % (S * m, S * m - 1, 2)))
+    out.append((2 * S * m + 6, "po%d,pw,pw,co%d,pf,cf" % (S * m, S * m)))
+    # segment cache not empty when the next segment is released
+    out.append((4 * S * m + 6, "po%d,co%d,po%d,co%d,cm,po%d,pf,cf" % (3 * S * m, 2 * S * m + m, S * m, S * m - m, S * m + m + 2)))
+    # hand-over while the producer is exactly at / one before / one after its boundary
+    for d in (-1, 0, 1):
+        out.append((2 * S * m + 6, "po%d,co%d,cm,po%d,cw,po2,pf,cf" % (2 * S * m + d, S * m, 1)))
+    return out
+
+
+def lane_random(rng, S):
+    n = rng.randrange(S + 1, 4 * S + 4)
+    cmds = []
+    for _ in range(rng.randrange(3, 14)):
+        who = rng.choice("pc")
+        kind = rng.randrange(6)
+        if kind == 0:
+            cmds.append("%s%d" % (who, rng.randrange(1, 8)))
+        elif kind == 1:
+            cmds.append("%so%d" % (who, rng.choice((1, 2, S - 1, S, S + 1, rng.randrange(1, 2 * S + 2)))))
+        elif kind == 2:
+            cmds.append(who + "m")
+        elif kind == 3:
+            cmds.append(who + "w")
+        elif kind == 4:
+            cmds.append("%so%d,%sw,%s%d" % (who, max(1, S - 1), who, who, rng.randrange(1, 4)))
+        else:
+            cmds.append("po%d,co%d,cm" % (rng.randrange(S, 2 * S + 2), rng.randrange(1, S + 1)))
+    return n, ",".join(cmds)
+
+
+def lane_cases(rng, thorough):
+    cs = []
+    seg, nq = GEOM["seg"], GEOM["nq"]
+    # one lane buffer alone; reset() uses memset (a yield point) only for segments > 512 entries
+    for S in sorted(set((513, 640, seg))):
+        for n, cmds in lane_directed(S):
+            cs.append(Case("l %d %d %s" % (S, n, cmds), "lane-handover"))
+    for S in (2, 3, 5):
+        for n, cmds in lane_directed(S):
+            cs.append(Case("l %d %d %s" % (S, n, cmds), "lane-handover-small"))
+    for _ in range(1500 if thorough else 150):
+        S = rng.choice((2, 3, 4, 5, 8, 513, 514))
+        n, cmds = lane_random(rng, S)
+        cs.append(Case("l %d %d %s" % (S, n, cmds), "lane-random"))
+    # the same through the whole queue: raw with small geometry, and the default geometry through the wrapper
+    for q, S in ((2, 513), (4, 520)):
+        for n, cmds in lane_directed(S, q):
+            cs.append(Case("L q %d %d %d %s" % (q, S, n, cmds), "lane-handover-queue"))
+    for n, cmds in lane_directed(seg, nq)[:5 if not thorough else None]:
+        cs.append(Case("L w %d %d %d %s" % (nq, seg, n, cmds), "lane-handover-queue"))
+    for _ in range(300 if thorough else 30):
+        S = rng.choice((2, 3, 513))
+        q = rng.choice((2, 4))
+        n, cmds = lane_random(rng, S * q)
+        cs.append(Case("L q %d %d %d %s" % (q, S, n, cmds), "lane-random-queue"))
+    return cs
+
+
 def gen_cases(rng, tier):
     thorough = tier == "thorough"
     cs = []
@@ -196,6 +275,8 @@ def gen_cases(rng, tier):
         cs.append(Case("b w %d %d 2 %d" % (GEOM["nq"], GEOM["seg"], n), "backlog-default"))
     cs.append(Case("b q 2 16 1 %d" % (2 * 16 + 1), "backlog-default"))
     cs.append(Case("b q 8 64 3 %d" % (8 * 64 * 2 + 7), "backlog-default"))
+    # the lane buffer's segment hand-over under forced interleavings (yield points inside the lane buffer)
+    cs += lane_cases(rng, thorough)
     # the slot buffer alone
     for _ in range(400 if thorough else 80):
         cs.append(slot_case(rng, rng.choice((2, 3, 4, 5, 8)), rng.randrange(0, 80), "slot-small"))
@@ -237,6 +318,10 @@ def nontrivial(case, r):
         return r.startswith("FREE")
     if w[0] == "b":
         return r.startswith("BACKLOG") and int(w[5]) > int(w[2]) * int(w[3])
+    if w[0] == "l":
+        return r.startswith("BACKLOG") and int(w[2]) > int(w[1])
+    if w[0] == "L":
+        return r.startswith("BACKLOG") and int(w[4]) > int(w[2]) * int(w[3])
     if w[0] == "q":
         nq = max(2, int(w[1]))
     else:
